@@ -4,6 +4,7 @@ mod decode;
 mod dev;
 mod exec;
 mod faults;
+mod sweeps;
 
 use std::io::{BufRead, BufWriter, Write};
 
@@ -55,6 +56,24 @@ fn main() {
                 }
                 let prog: serde_json::Value = serde_json::from_str(&line).expect("program json");
                 n_ev += faults::enumerate(&prog, &mut w);
+                n_prog += 1;
+            }
+            w.flush().unwrap();
+            println!("{{\"programs\":{},\"events\":{}}}", n_prog, n_ev);
+        }
+        "formats" | "mounts" => {
+            let inp = std::fs::File::open(&args[2]).expect("open requests");
+            let out = std::fs::File::create(&args[3]).expect("create events");
+            let mut w = BufWriter::with_capacity(1 << 20, out);
+            let mut n_prog = 0u64;
+            let mut n_ev = 0u64;
+            for line in std::io::BufReader::new(inp).lines() {
+                let line = line.expect("read");
+                if line.trim().is_empty() {
+                    continue;
+                }
+                let req: serde_json::Value = serde_json::from_str(&line).expect("request json");
+                n_ev += if args[1] == "formats" { sweeps::formats(&req, &mut w) } else { sweeps::mounts(&req, &mut w) };
                 n_prog += 1;
             }
             w.flush().unwrap();
